@@ -30,7 +30,7 @@ CHECKS.update({
     "C03": dict(
         text=("TLC explores ALL input histories (closure of ChangeInput over a trimmed boundary domain, one input changed at a time and held "
               "until settled) of the product of the emitted circuit with the abstract gated cell of Facto.tla, for every program of the GenMem "
-              "cell families, comparing every reader at every settled state. Hardware races (enable dropped while data changed) are detected "
+              "cell families and of the GenFL programs that declare cells inside functions and loop bodies, comparing every reader at every settled state. Hardware races (enable dropped while data changed) are detected "
               "by the abstract machine, not judged and counted."),
         design="DESIGN 7 C03, 6.1", technique="TLC model checking of Circuit(BP) x abstract memory machine over all input histories"),
     "C04": dict(
@@ -54,7 +54,8 @@ CHECKS.update({
         text=("Every valid way of invoking the compiler (GenInvoke: entry point x file / -i x string / --json x stdout / -o x options) is run "
               "as a real subprocess on programs of six families; the emitted text is decoded (base64+zlib+JSON with the standard library) "
               "and Export.tla compares it entity by entity (operation, operands, constants, network selections, condition rows and "
-              "connectives, outputs and copy mode, constant sections, circuit conditions) and wire by wire with the planned circuit recorded "
+              "connectives, outputs and copy mode, constant sections, circuit conditions, static boolean properties of user-placed entities incl. values that "
+              "switch a default off) and wire by wire with the planned circuit recorded "
               "by hook H1 in the same process; the string and JSON forms must decode to one blueprint; the decoded text is then executed "
               "against the interpreter (Refine1), so 'executing the decoded text gives the planned behaviour' is checked by execution."),
         design="DESIGN 7 C07", category="translation_validation",
@@ -69,8 +70,8 @@ CHECKS.update({
         design="DESIGN 7 C08, 3.5 Layout", technique="TLC design model + fault scripts replayed into the code + trace validation + geometric invariants on the output"),
     "C09": dict(
         text=("TLC compares the bag of non-compiler-made entities of the blueprint with the interpreter's list of executed place() "
-              "statements (loops iterate, calls substitute, int arithmetic is Int32): prototype, top-left tile, static properties; nothing "
-              "extra, nothing missing; with and without power poles."),
+              "statements (loops iterate, calls substitute, int arithmetic is Int32): prototype, top-left tile, static properties (a property equal to the game's default may be left out); "
+              "nothing extra, nothing missing; with and without power poles; user-placed poles and combinators must be present at their tiles."),
         design="DESIGN 7 C09", technique="TLC evaluation of bag equality between blueprint entities and the specification's elaboration"),
     "C10": dict(
         text=("Every program of the scalar and bundle cores is compiled with and without optimisation; TLC runs the two emitted circuits in "
